@@ -58,6 +58,11 @@ func NewPKI(cn string) (*PKI, error) {
 
 // Issue mints a leaf certificate; selfSigned ignores the CA; expired makes it lapse an hour ago.
 func (p *PKI) Issue(cn string, server bool, selfSigned bool, expired bool) (der []byte, key *ecdsa.PrivateKey, err error) {
+	return p.IssueSAN(cn, nil, server, selfSigned, expired)
+}
+
+// IssueSAN is Issue with subject alternative names (DNS) on a client certificate: they name nobody - the identity is the subject's common name.
+func (p *PKI) IssueSAN(cn string, sans []string, server bool, selfSigned bool, expired bool) (der []byte, key *ecdsa.PrivateKey, err error) {
 	key, err = ecdsa.GenerateKey(elliptic.P256(), rand.Reader)
 	if err != nil {
 		return nil, nil, err
@@ -68,6 +73,12 @@ func (p *PKI) Issue(cn string, server bool, selfSigned bool, expired bool) (der 
 		ExtKeyUsage: []x509.ExtKeyUsage{x509.ExtKeyUsageClientAuth, x509.ExtKeyUsageServerAuth}}
 	if expired {
 		tmpl.NotAfter = time.Now().Add(-time.Hour)
+	}
+	if len(sans) > 0 {
+		tmpl.DNSNames = sans
+		tmpl.EmailAddresses = sans
+		tmpl.Subject.Organization = sans
+		tmpl.Subject.OrganizationalUnit = sans
 	}
 	if server {
 		tmpl.DNSNames = []string{"localhost", cn}
@@ -374,6 +385,14 @@ func (a *APIServer) Dial(ctx context.Context, cred string) (*grpc.ClientConn, er
 				if err == nil {
 					c.Certificate = append(c.Certificate, extra.Certificate[0])
 				}
+			}
+		case strings.HasPrefix(cred, "valid-") && strings.Contains(cred, "~san-"):
+			// "valid-X~san-Y": genuine leaf for X that carries Y as alternative name, organisation and unit
+			parts := strings.SplitN(strings.TrimPrefix(cred, "valid-"), "~san-", 2)
+			var der []byte
+			var key *ecdsa.PrivateKey
+			if der, key, err = a.PKI.IssueSAN(parts[0], []string{parts[1]}, false, false, false); err == nil {
+				c = tls.Certificate{Certificate: [][]byte{der}, PrivateKey: key}
 			}
 		case strings.HasPrefix(cred, "valid-"):
 			c, err = leaf(a.PKI, strings.TrimPrefix(cred, "valid-"), false, false)
